@@ -16,7 +16,9 @@
        (no assertion of the code fails, the recursion ends) is proved on the
        finite domains of the property's quantifier by computation
        ([_bounded]) and stated for all instances with a non-empty f as
-       [C10_total] (NOT proved); [C10_full] = [C10_total] + exactness.
+       [C10_total] (NOT proved; on the level of covering problems it is
+       refuted for the present code, [C10_refuted_total_xy], finding F17);
+       [C10_full] = [C10_total] + exactness.
        For f = FALSE the code fails an assertion ([C10_refuted_empty_f];
        the library requires f to be non-empty).
    (3) Finding F2 (unrepaired code): Context.pick_iter / Context.count are
@@ -29,7 +31,8 @@ From Omega Require Import L5Cover.Boxes L5Cover.BoxesProofs L5Cover.MinCover
   L5Cover.MinCoverProofs L5Cover.CoverEnum L5Cover.CoverEnumProofs
   L5Cover.MinCoverBounded L5Cover.MinCoverBounded4 L5Cover.CoverEnumBounded4
   L5Cover.CoverEnumOld L5Cover.CoverEnumRefuted L5Cover.CyclicCoreOpt
-  L5Cover.CoverEnumLemmas L5Cover.CoverEnumStep L5Cover.CoverEnumExact.
+  L5Cover.CoverEnumLemmas L5Cover.CoverEnumStep L5Cover.CoverEnumExact
+  L5Cover.MinCoverTotal L5Cover.CoverEnumRefutedTotal.
 Open Scope Z_scope.
 
 (* what C10 demands of an enumeration procedure: it returns (no error) a set
@@ -179,6 +182,29 @@ Proof.
   exists R. split; [exact HR | apply (enum_exact rs pick f care R Hp HR)].
 Qed.
 
+(* finding F17: on a feasible covering problem (X = the unit vectors of 15
+   two-valued variables, Y = 15 cubes, an antichain; cover.minimize's model
+   returns 6 columns) the model of cover_enum.minimize stops at the
+   assertion `k == k_` of _enumerate_mincovers_unfloor for a priority pick:
+   a node inside a sub-optimal branch returns covers that are not minimal for
+   that node (its left branch is pruned, its right branch ends in a leaf more
+   expensive than the upper bound, which _traverse_exhaustive accepts), and
+   lifting such a cover is not injective.  So totality fails on the level of
+   covering problems; the real code raises the AssertionError on coordinate
+   permutations of this instance *)
+Example C10_refuted_total_xy :
+  (forall s b, e_pick s = Some b -> In b s) /\
+  (forall s, e_pick s = None -> s = []) /\
+  feasible e_rs e_X e_Y /\ antichain e_Y /\ e_X <> [] /\
+  (exists K, minimize_xy e_rs e_pick e_X e_Y = Some K /\ length K = 6%nat) /\
+  enum_xy e_rs e_pick e_X e_Y = inr EAssert.
+Proof.
+  destruct e_feasible as [A [B C]].
+  split; [exact e_pick_ok|]. split; [exact e_pick_total|].
+  split; [exact A|]. split; [exact B|]. split; [exact C|].
+  split; [exact e_minimize_xy_6 | exact e_enum_xy_asserts].
+Qed.
+
 (* without the precondition the statement is false: for f = FALSE the model
    (like the code) stops at an assertion although the set of minimum covers
    is { {} } *)
@@ -237,4 +263,5 @@ Print Assumptions C10_enum_exact.
 Print Assumptions C10_enum_xy_complete.
 Print Assumptions C10_ccfr_invariants.
 Print Assumptions C10_full_from_total.
+Print Assumptions C10_refuted_total_xy.
 Print Assumptions C10_refuted_unrepaired.
